@@ -630,3 +630,56 @@ package sipsp
 //@   ensures err == ErrHdrMoreBytes ==> uhdrOK(l, buf, n, flags|POptParamAmpSepF|POptTokURIHdrF)
 //@   ensures[C17] "counted": l.N == l_old.N + vNo && 0 <= vNo
 //@   ensures uhdrWF(l)
+
+// ---- signature helpers and hex: safety and termination only (C04) ----
+// (IP6Prefix needs the identity of a pointer to one of two local arrays in its invariant, which a clause
+// cannot express; it, ContainsIP6 and GetCallIDSig stay outside.)
+
+//@ func hexToU(b) (r, ok)
+//@   loop 0 "for _, d := range b"
+//@     invariant -1 <= rangeindex && rangeindex < len(b)
+//@     decreases len(b) - rangeindex
+
+//@ func hexToI(b) (r, ok)
+//@   requires len(b) <= 65535
+
+//@ func getStrCharsSig(s, skipOffs, skipLen) (sig, skipped)
+//@   requires len(s) <= 65535
+//@   loop 0 "for i := 0; i < len(s); i++"
+//@     invariant 0 <= i && i <= len(s)
+//@     decreases len(s) - i
+
+//@ func GetViaBrSig(viab) (sig, l)
+//@   requires bufOK(viab)
+//@   loop 0 "for"
+//@     invariant 0 <= offs && offs <= len(viab) && ptOK(&param, offs) && param.state == vpInit
+//@     decreases len(viab) - offs
+
+//@ func GetHdrSigId(h) (r, err)
+
+// ---- exported one-line wrappers (verified on their own; callers keep inlining them) ----
+
+//@ func ParseFromVal(buf, offs, pfrom) (n, err)
+//@   inline
+//@   requires bufOK(buf) && 0 <= offs && offs <= len(buf) && pfrom != nil && fbOK(pfrom, offs, pfrom.soffs)
+//@   modifies *pfrom
+//@   ensures 0 <= n && n <= len(buf) && fbWithin(pfrom, len(buf))
+
+//@ func ParseOneContact(buf, offs, pfrom) (n, err)
+//@   inline
+//@   requires bufOK(buf) && 0 <= offs && offs <= len(buf) && pfrom != nil && fbOK(pfrom, offs, pfrom.soffs)
+//@   modifies *pfrom
+//@   ensures 0 <= n && n <= len(buf) && fbWithin(pfrom, len(buf))
+
+//@ func ParseOnePAI(buf, offs, pfrom) (n, err)
+//@   inline
+//@   requires bufOK(buf) && 0 <= offs && offs <= len(buf) && pfrom != nil && fbOK(pfrom, offs, pfrom.soffs)
+//@   modifies *pfrom
+//@   ensures 0 <= n && n <= len(buf) && fbWithin(pfrom, len(buf))
+
+//@ func ParseExpiresVal(buf, offs, pcl) (n, err)
+//@   inline
+//@   requires bufOK(buf) && 0 <= offs && offs <= len(buf) && pcl != nil && clOK(pcl, offs)
+//@   requires[C10] clNum(pcl, buf, offs)
+//@   modifies *pcl
+//@   ensures 0 <= n && n <= len(buf) && within(pcl.SVal, len(buf))
